@@ -347,6 +347,9 @@ type Node struct {
 	ctx      context.Context
 	cancel   context.CancelFunc
 	wg       sync.WaitGroup
+	wctx     context.Context
+	wcancel  context.CancelFunc
+	wwg      sync.WaitGroup
 	grpcSrv  *grpc.Server
 	lis      *bufconn.Listener
 	client   *grpc.ClientConn
@@ -469,7 +472,16 @@ func (cl *Cluster) buildNode(id uint64, name string, o NodeOpts) (*Node, error) 
 	n.client = cc
 
 	n.goRun(func() { wasp.SchedulePublishes(id, w, n.Log)(n.ctx) })
-	n.goRun(func() { w.Run(n.ctx, n.Log) })
+	// the writer gets a context of its own: Run closes the writer's queue when its context ends,
+	// and a log consumer or session goroutine that is still handing it a message at that moment
+	// panics ("send on closed channel"). That is a shutdown race of the broker, not something a
+	// client causes; Stop therefore ends the writer last.
+	n.wctx, n.wcancel = context.WithCancel(nopCtx())
+	n.wwg.Add(1)
+	go func() {
+		defer n.wwg.Done()
+		w.Run(n.wctx, n.Log)
+	}()
 	n.goRun(func() { n.Proc.Run(n.ctx) })
 	n.goRun(func() { n.Manager.Run(n.ctx) })
 
@@ -537,6 +549,18 @@ func (n *Node) Stop() {
 	go func() { n.wg.Wait(); close(done) }()
 	select {
 	case <-done:
+	case <-time.After(5 * time.Second):
+	}
+	// session goroutines are not tracked: give them a moment to notice that their connections
+	// are gone before the writer's queue is closed under them
+	for until := time.Now().Add(300 * time.Millisecond); time.Now().Before(until) && len(n.Local.real.ListSessions()) > 1; {
+		time.Sleep(time.Millisecond)
+	}
+	n.wcancel()
+	wdone := make(chan struct{})
+	go func() { n.wwg.Wait(); close(wdone) }()
+	select {
+	case <-wdone:
 	case <-time.After(5 * time.Second):
 	}
 	n.Log.Close()
